@@ -5,6 +5,7 @@ import NA.Proofs.F1Converge
 import NA.Proofs.F1EndToEnd
 import NA.Proofs.F1K2
 import NA.Proofs.F1Idem
+import NA.Proofs.F1RouteSafe
 /-!
 # F1 — the ASA diff engine on the fragment {access-group, access-list + object-group network, route}
 
@@ -453,6 +454,64 @@ example : (engine ex2Dev ex2Tgt ex2Scripts).bind (fun r => exec (ofConfig ex2Dev
 /-- F-C01b is outside class ISO (the left-over group). -/
 example : (exAfter.map fun d' => isoCheck (toConfig d') exTgt exScripts2) = some false := by decide
 
+/-! ## 9. Routes: every destination stays covered after each command (C14, closes the hypotheses of
+`NA.Route.routes_covered`)
+
+`NA.Route.routes_covered` (NA/Props/C14.lean) assumes the shape of the script (`phaseA`, `phaseB`) and that the
+script reaches the target (`hall`).  Here these are PROVED for the route commands of the tied `diffRoutes` model:
+`routeOpsOf al bl` are the route-level operations whose rendering is exactly what `diffRoutes` appends to the
+script (`asa_routes_script_is_model`); `diffUnordered` is characterised for duplicate-free keys
+(`diffUnordered_computes`).  Input hypotheses: the device does not list a route twice, and a route is
+determined by its text (destination and sort key are parsed from it). -/
+
+/-- What `diffUnordered` computes for duplicate-free `as` (positions): deleted = keys of `as` not in `bs`, inserted
+= keys of `bs` not in `as`, every other position of `as` paired with the last position of its key in `bs`. -/
+theorem diffUnordered_computes (as bs : List String) (has : as.Nodup) :
+    delIdxOf (diffUnordered as bs) = (List.range as.length).filter (fun i => !bs.contains (as.getD i "")) ∧
+    insIdxOf (diffUnordered as bs) = (List.range bs.length).filter (fun t => !as.contains (bs.getD t "")) ∧
+    eqIdxOf (diffUnordered as bs) =
+      (List.range as.length).filterMap (fun i => (lastIdx (as.getD i "") bs).map fun j => (i, j)) :=
+  let h := diffUnordered_spec as bs has
+  ⟨h.1, h.2.1, h.2.2.1⟩
+
+/-- The route commands printed by `diffRoutes` are the rendering of `routeOpsOf`, in that order. -/
+theorem asa_routes_script_is_model (st : St) (al bl : List Route) :
+    (diffRoutes st al bl).out = st.out ++ (routeOpsOf al bl).map RO.toChg := diffRoutes_out st al bl
+
+/-- The hypotheses `phaseA`, `phaseB`, `hall` of `NA.Route.routes_covered` hold for the emitted route commands
+(numbered injectively by `encR`): first additions and same-destination replacements sent as one line, then
+deletions of routes the target does not contain; after the first phase the whole target is on the device. -/
+theorem asa_routes_phases (al bl : List Route) (hnd : (al.map (·.text)).Nodup) (hwf : RouteWF (al ++ bl)) :
+    ∃ opsA opsB, routeOpsOf al bl = opsA ++ opsB ∧
+      NA.Route.phaseA (opsA.map (encOp (al ++ bl))) = true ∧
+      NA.Route.phaseB (bl.map (encR (al ++ bl))) (opsB.map (encOp (al ++ bl))) = true ∧
+      (∀ r ∈ bl.map (encR (al ++ bl)), r ∈ (opsA.map (encOp (al ++ bl))).foldl NA.Route.rexec1 (al.map (encR (al ++ bl)))) :=
+  let ⟨a, b, h1, h2, h3, h4, _⟩ := routeOps_phases al bl hnd hwf
+  ⟨a, b, h1, h2, h3, h4⟩
+
+/-- **`asa_routes_covered_every_step`** — for every device route list `al` and target route list `bl` (the one
+managed family of F1: IPv4, no VRF): every destination that has a route before and after has one after EACH
+emitted command, in the real order (new routes and joined gateway replacements first, removals last). -/
+theorem asa_routes_covered_every_step (al bl : List Route) (hnd : (al.map (·.text)).Nodup) (hwf : RouteWF (al ++ bl))
+    (d : String) (hold : ∃ r ∈ al, r.dst = d) (hnew : ∃ r ∈ bl, r.dst = d) :
+    ∀ t ∈ roTrace al (routeOpsOf al bl), ∃ r ∈ t, r.dst = d :=
+  routes_covered_every_step al bl hnd hwf d hold hnew
+
+/-- Non-vacuity: gateway of 10.9.0.0/16 replaced (one joined line), 10.8.0.0/16 added, 10.7.0.0/16 removed; the
+three intermediate tables all cover 10.9.0.0/16 and the default route. -/
+def exRA : List Route := [⟨"inside 10.9.0.0 255.255.0.0 10.1.1.254", "10.9.0.0/16", 112⟩, ⟨"inside 10.7.0.0 255.255.0.0 10.1.1.254", "10.7.0.0/16", 112⟩,
+  ⟨"outside 0.0.0.0 0.0.0.0 1.1.1.1", "0.0.0.0/0", 128⟩]
+def exRB : List Route := [⟨"inside 10.8.0.0 255.255.0.0 10.1.1.253", "10.8.0.0/16", 112⟩, ⟨"inside 10.9.0.0 255.255.0.0 10.1.1.253", "10.9.0.0/16", 112⟩,
+  ⟨"outside 0.0.0.0 0.0.0.0 1.1.1.1", "0.0.0.0/0", 128⟩]
+example : (routeOpsOf exRA exRB).map (fun o => (showChanges [o.toChg])) =
+    [["route inside 10.8.0.0 255.255.0.0 10.1.1.253"],
+     ["no route inside 10.9.0.0 255.255.0.0 10.1.1.254\\N route inside 10.9.0.0 255.255.0.0 10.1.1.253"],
+     ["no route inside 10.7.0.0 255.255.0.0 10.1.1.254"]] ∧
+    (roTrace exRA (routeOpsOf exRA exRB)).length = 3 ∧
+    ((roTrace exRA (routeOpsOf exRA exRB)).all fun t => t.any (·.dst == "10.9.0.0/16") && t.any (·.dst == "0.0.0.0/0")) = true ∧
+    (exRA.map (·.text)).Nodup ∧ RouteWF (exRA ++ exRB) := by
+  refine ⟨by decide, by decide, by decide, by decide, by unfold RouteWF; decide⟩
+
 def obligations : List Lean.Name := [
   ``names_fresh, ``names_injective, ``findGroup_sound, ``findGroup_first,
   ``group_equalize_converges, ``group_edit_emits_memOps, ``group_needed_never_edited, ``group_edit_only_if_small,
@@ -461,6 +520,7 @@ def obligations : List Lean.Name := [
   ``sem_initial, ``group_equalize_converges_dev, ``equalizedGroups_sound, ``transferGroup_sound,
   ``asa_acl_pair_converges_partial, ``asa_F1_converges_partial, ``deleteUnused_accepted, ``idempotent_counterexample,
   ``asa_F1_converges, ``asa_F1_unchanged_only_if_equivalent, ``asa_F1_resume_partial,
-  ``asa_F1_iso_quiet, ``asa_F1_idempotent_partial]
+  ``asa_F1_iso_quiet, ``asa_F1_idempotent_partial,
+  ``diffUnordered_computes, ``asa_routes_script_is_model, ``asa_routes_phases, ``asa_routes_covered_every_step]
 
 end NA.F1
